@@ -32,7 +32,7 @@ ASSUMPTIONS = [
 ]
 
 TRAIN_FDR = 0.5
-CLASSES = {6: "HHHDLD", 7: "HHHDLDH", 8: "HHHDLDHD", 9: "HHHDLDHDL"}
+CLASSES = {6: "HHHDLD", 7: "HHHDLDH", 8: "HHHDLDHH", 9: "HHHDLDHHL"}
 
 
 def base_rows(n, variant=0):
